@@ -228,6 +228,10 @@ func zstream(z string, data []byte) []byte {
 		d := gen.Deflate(data, 6)
 		d[len(d)-1] ^= 0x5a
 		return d
+	case "badblock": // valid zlib header, then a reserved block type: inflation stops at once, most of the chunk unread
+		d := gen.Deflate(data, 6)
+		d[2] = 0x07
+		return d
 	}
 	panic("bad z " + z)
 }
@@ -341,6 +345,12 @@ func buildJPEG(c Case, variant int) Built {
 				segs = append(segs, gen.COM(gen.Payload(40+variant, 3, true)))
 			case k == "dri":
 				segs = append(segs, gen.DRI(uint16(4+variant)))
+			case k == "app2short": // APP2 that is not an ICC segment and shorter than the 12-byte identifier
+				segs = append(segs, gen.APP(2, []byte("MPF")))
+			case k == "app2empty":
+				segs = append(segs, gen.APP(2, nil))
+			case k == "app2almost": // the identifier and nothing else (no chunk number / total)
+				segs = append(segs, gen.APP(2, []byte("ICC_PROFILE\x00")), gen.APP(2, []byte("ICC_PROFILE\x00\x01")))
 			case k == "app0":
 				segs = append(segs, gen.JFIF())
 			case k == "app14": // Adobe marker as image/jpeg expects it
